@@ -532,6 +532,17 @@ fn node_repeats_exec(_k: &usize, ctx: &WorkerCtx) -> ExecResult {
     })
 }
 
+/// C14 at the connection: every operation of the list on a connection that negotiated distribution headers; the
+/// peer's bytes are read by the independent header reader with its own cache.
+pub fn run_c14(rep: &Report) -> Value {
+    let thorough = rep.thorough();
+    let modes = [true];
+    let st: Stats = for_all(rep, "operations x arguments under negotiated distribution headers", &modes, |m, ctx| inputs_exec(*m, thorough, ctx));
+    json!({"states": st.executions, "transitions": st.transitions, "traces_validated_against_impl": st.executions, "exhaustive": true,
+        "samples": [{"operation": "send with 300 distinct atoms", "mode": "distribution header"}],
+        "rule": "the send-side operations x argument values of C07 on a real Connection that negotiated distribution headers; every frame read by the independent header reader with a cache of its own"})
+}
+
 pub fn run(rep: &Report) -> Value {
     let thorough = rep.thorough();
     let modes = [false, true];
